@@ -1,17 +1,11 @@
-(* ConstCheck.v — tolerance, angle normalisation and printing precisions regenerated from the Python source
-   equal the ones of the model. By computation. *)
+(* ConstCheck.v — the three constant ties in one statement *)
 From Coq Require Import ZArith List String.
 From OSQ Require Import Num IR Construct DefaultTable DefaultGates Constants.
-
-Lemma atol_ok : (gen_atol_num = 1 /\ gen_atol_den = 10000000)%Z. Proof. split; reflexivity. Qed.
-Lemma normalize_ok : forall (T : Type) (N : Num T) (x : T), gen_normalize_angle N x = normalize_angle N x.
-Proof. reflexivity. Qed.
-Lemma precisions_ok : (gen_writer_precision = 8 /\ gen_v1_precision = 8 /\ gen_qs_deg_precision = 5)%Z.
-Proof. repeat split; reflexivity. Qed.
+From OSQ Require Export AtolCheck NormalizeCheck PrecisionCheck.
 
 Definition source_constants_checked : Prop :=
   (gen_atol_num = 1 /\ gen_atol_den = 10000000)%Z /\
   (forall (T : Type) (N : Num T) (x : T), gen_normalize_angle N x = normalize_angle N x) /\
   (gen_writer_precision = 8 /\ gen_v1_precision = 8 /\ gen_qs_deg_precision = 5)%Z.
 Lemma source_constants_ok : source_constants_checked.
-Proof. repeat split; reflexivity. Qed.
+Proof. exact (conj atol_ok (conj normalize_ok precisions_ok)). Qed.
